@@ -24,8 +24,8 @@ func (m *constMat) SampleSource(gen *rand.Rand, normal, dest model3d.Coord3D) mo
 	return normal
 }
 func (m *constMat) SourceDensity(normal, source, dest model3d.Coord3D) float64 { return 1 }
-func (m *constMat) Emission() render3d.Color                                  { return m.em }
-func (m *constMat) Ambient() render3d.Color                                   { return m.amb }
+func (m *constMat) Emission() render3d.Color                                   { return m.em }
+func (m *constMat) Ambient() render3d.Color                                    { return m.amb }
 
 func runLit(c *hlib.Ctx) {
 	prev := runtime.GOMAXPROCS(0)
